@@ -193,6 +193,10 @@ def typed_calls(rng: random.Random, full: bool) -> Iterator[Tuple[str, str, List
     for p in ([1], {'a': 1, 'b': 2}, [1, 2]):
         yield 'view-class-or-static-method', 'view.cm', p
         yield 'view-class-or-static-method', 'view.sm', p
+    for p in (['m'], ['m', 'c'], {'message': 'm', 'context': {'k': 1}}, {'context': None, 'message': 1}):
+        yield 'view-method-with-a-parameter-named-context', 'view.note', p
+    for p in ([], {'context': 1}, [1, 2, 3], {'message': 1, 'ctx': 2}):
+        yield 'unbound', 'view.note', p
     for p in ([], {'cls': 1}, {'b': 2}, [1, 2, 3]):
         yield 'unbound', 'view.cm', p
         yield 'unbound', 'view.sm', p
@@ -288,6 +292,8 @@ def make_element(kind: str, pos: int, scheme: str = 'int') -> Any:
     if kind == 'call_slow':
         return obj(id=i, method='slow', params=[tok, max(0, 3 - pos)])    # earlier elements finish later
     if kind == 'call_view':
+        if pos % 2:
+            return obj(id=i, method='view.note', params={'message': tok, 'context': pos})
         return obj(id=i, method='view.vm', params={'a': tok})
     if kind == 'call_unknown':
         return obj(id=i, method=UNKNOWN_NAMES[pos % len(UNKNOWN_NAMES)], params=[tok])
